@@ -275,7 +275,7 @@ def content(obs):
     return NEGZERO.sub(lambda m: m.group(1) + "00000000", obs)
 
 
-KFV_SCRIPTS = ["", "1", "2", "0", "1,2", "3,4", "1,3", "2,1", "1,2,3", "1,2,4", "255", "255,255", "0,0", "0,1",
+KFV_SCRIPTS = ["", "1", "2", "0", "1,0", "1,0,0", "2,0", "0,2", "1,2", "3,4", "1,3", "2,1", "1,2,3", "1,2,4", "255", "255,255", "0,0", "0,1",
                "1,2,3,p", "1,2,9,p", "1,2,3,t2", "3,4,5,t0", "5,p", "1,2,3,4,5,6,7,8,9", "1,2,3,4,5,6,7,8,8",
                "1,2,3,4,5,6,7,8,9,10", "0,0,x", "0,0,0,x,1", "1,2,x", "1,2,3,x,p", "9,8,7,6,5,4,3,2,1,0,x",
                "1,p,1", "7,7,7,t1", "7", "1,1", "1,1,1", "2,2", "4,3", "3,4,p,5", "1,2,3,4,5,6,7,8", "9,9,9,9,9,9,9,9,9,p"]
@@ -815,6 +815,16 @@ def c13_build(ctx):
     for cfg in small:
         for unset in ((), ("media", "variants", "sdata")):
             cases.append(mk("build_master", script_of(cfg, unset), group="builder", meta={"cfg": cfg, "built": True}))
+    # renditions made with ExtXMedia::builder(): group ids no text can carry (a quote, a line break inside) are ids like any
+    # other for the builder - a reference to `g1` is not a reference to `"g1"`
+    hx = lambda t: t.encode().hex()
+    odd = ['"g1"', 'g"1', "g\n1", "g\r1", "g1\n", '"g1', "g1"]
+    for t, attr in (("AUDIO", "AUDIO"), ("VIDEO", "VIDEO"), ("SUBTITLES", "SUBTITLES")):
+        for gid in odd:
+            item = "type=%s+group=%s+name=%s" % (t, hx(gid), hx("n")) + ("+uri=" + hx("u") if t == "SUBTITLES" else "")
+            var = '#EXT-X-STREAM-INF:BANDWIDTH=1,%s="g1"\nv.m3u8' % attr
+            exp = gid == "g1"
+            cases.append(mk("build_master", "mediab %s\nvariants %s" % (item, hx(var)), group="builder-odd-ids", meta={"expect": exp}))
     return cases
 
 
@@ -824,6 +834,9 @@ def c13_oracle(ctx, cases, impl, model):
         r = C.Resp(a)
         if r.status == "panic":
             fails.append(dict(describe(c.line, a), what="master parser panicked"))
+            continue
+        if "expect" in c.meta and c.meta["expect"] != (r.status == "ok"):
+            fails.append(dict(describe(c.line, a), what="acceptance differs from the consistency rule (builder, rendition ids compared as they are): expected %s, implementation %s" % ("accept" if c.meta["expect"] else "reject", r.status), law="accept-iff-consistent"))
             continue
         cfg = c.meta.get("cfg")
         if cfg is not None:
@@ -1034,9 +1047,14 @@ def c06_render(seq):
     ns = 0
     for ev in seq:
         if ev[0] == "K":
-            l = '#EXT-X-KEY:METHOD=AES-128,URI="%s"' % ev[2]
+            attr = ev[3] if len(ev) > 3 else ""
+            l = '#EXT-X-KEY:METHOD=%s,URI="%s"' % ("SAMPLE-AES" if attr == "saes" else "AES-128", ev[2])
+            if attr.startswith("iv"):
+                l += ",IV=0x%032x" % int(attr[2:])
             if C06_FMT[ev[1]] is not None:
                 l += ',KEYFORMAT="%s"' % C06_FMT[ev[1]]
+            if attr.startswith("v"):
+                l += ',KEYFORMATVERSIONS="%s"' % attr[1:]
             lines.append(l)
         elif ev[0] == "N":
             lines.append("#EXT-X-KEY:METHOD=NONE")
@@ -1059,7 +1077,7 @@ def c06_spec(seq):
         if ev[0] == "K":
             if marker:
                 cur, marker = {}, False
-            cur = dict(cur); cur[C06_FMT_ID[ev[1]]] = ev[2]; partial = True
+            cur = dict(cur); cur[C06_FMT_ID[ev[1]]] = ev[2] if len(ev) < 4 else (ev[2], ev[3]); partial = True
         elif ev[0] == "N":
             cur, marker = {}, True; partial = True
         elif ev[0] == "M":
@@ -1071,7 +1089,24 @@ def c06_spec(seq):
     return (not partial), out
 
 
-def c06_snapshot(keys):
+def key_attr(k):
+    """which of the one-attribute variants of the C06 alphabet a reported key is"""
+    if k[0] != "aes":
+        return "saes"
+    if k[2].startswith("ivA"):
+        return "iv%d" % int(k[2][3:], 16)
+    if k[4] != "-":
+        return "v" + "/".join(str(x) for x in getattr(k[4], "items", []))
+    return ""
+
+
+def c06_snapshot(keys, attr=False):
+    if attr:
+        ids = [None if k == "K0" else ((key_ident(k)[0], key_attr(k)), key_ident(k)[1]) for k in keys]
+        if ids == [None]:
+            return ("MARK",), True
+        ok = None not in ids and len({i[1] for i in ids}) == len(ids)
+        return frozenset(ids), ok
     ids = [key_ident(k) for k in keys]
     if ids == [None]:
         return ("MARK",), True
@@ -1102,6 +1137,17 @@ def c06_build(ctx):
         n = rng.randint(4, 30)
         seq = tuple(rng.choice(C06_ALPHA_LOOK) if rng.random() < 0.7 else ("S",) for _ in range(n)) + (("S",),)
         cases.append(mk("media", c06_render(seq), group="look-alike-formats-long", meta={"seq": seq}))
+    # a key replaced by one that differs in ONE other attribute only (IV, method, versions; same URI, same format): it is a new key
+    alpha_attr = [("K", f, "a", at) for f in (0, 2) for at in ("", "iv1", "iv2", "v1/2", "v3", "saes")] + [("N",), ("M",), ("S",)]
+    for n in range(2, 4):
+        for seq in itertools.product(alpha_attr, repeat=n):
+            if sum(1 for ev in seq if ev[0] == "K") >= 2:
+                seq = seq + (("S",),)
+                cases.append(mk("media", c06_render(seq), group="one-attribute-apart", meta={"seq": seq, "attr": True}))
+    for _ in range(ctx.n(600, 12000)):
+        n = rng.randint(4, 24)
+        seq = tuple(rng.choice(alpha_attr) if rng.random() < 0.7 else ("S",) for _ in range(n)) + (("S",),)
+        cases.append(mk("media", c06_render(seq), group="one-attribute-apart", meta={"seq": seq, "attr": True}))
     # strings the source spells now and did not spell when source_literals.json was written: each as a KEYFORMAT of its own,
     # next to every well-known format (it is its own format unless it IS one of the well-known strings)
     known = {"identity": "identity", "com.apple.streamingkeydelivery": "kfF", "urn:uuid:edef8ba9-79d6-4ace-a3c8-27dcd51d21ed": "kfW", "com.microsoft.playready": "kfP"}
@@ -1174,9 +1220,10 @@ def c06_oracle(ctx, cases, impl, model):
         if m is None:
             continue
         got = []
+        at = bool(c.meta.get("attr"))
         for s in m.segments:
-            snap, _ = c06_snapshot(s.keys)
-            ms = None if s.map is None else c06_snapshot(s.map[2].items)[0]
+            snap, _ = c06_snapshot(s.keys, at)
+            ms = None if s.map is None else c06_snapshot(s.map[2].items, at)[0]
             got.append((snap, ms))
         if got != exp:
             i = next((i for i, (x, y) in enumerate(zip(got, exp)) if x != y), min(len(got), len(exp)))
@@ -1793,6 +1840,21 @@ def c15_build(ctx):
             line = tag + ":" + v + "\n"
             for text in ("#EXTM3U\n" + line, "#EXTM3U\n" + good_master + line, "#EXTM3U\n" + line + good_master):
                 cases.append(mk("master", text, group="foreign-tag-any-value", meta={"foreign": "media-tag"}))
+    # … and in every well-formed shape it takes in generated playlists (all attribute subsets): each distinct tag line of generated
+    # media playlists inside a master playlist, each distinct tag line of generated master playlists inside a media playlist
+    seen_lines = set()
+    for i in range(ctx.n(300, 3000)):
+        for l in G.gen_media(rng, key_weight=0.5, features=ctx.features)[0].split("\n"):
+            l = l.strip()
+            if l.startswith(tuple(media_tags)) and l not in seen_lines and not l.startswith("#EXT-X-MEDIA:"):
+                seen_lines.add(l)
+                cases.append(mk("master", "#EXTM3U\n" + (good_master if i % 2 else "") + l + "\n", group="foreign-tag-every-shape", meta={"foreign": "media-tag"}))
+        ls = [x.strip() for x in G.gen_master(rng, features=ctx.features)[0].split("\n")]
+        for j, l in enumerate(ls):
+            if l.startswith(tuple(t + ":" for t in master_tags)) and l not in seen_lines:
+                seen_lines.add(l)
+                extra = (ls[j + 1] + "\n") if l.startswith("#EXT-X-STREAM-INF:") and j + 1 < len(ls) else ""
+                cases.append(mk("media", "#EXTM3U\n" + good_media + l + "\n" + extra, group="foreign-tag-every-shape", meta={"foreign": "master-tag"}))
     for tag in master_tags:
         for v in vals:
             line = tag + ":" + v + "\n" + ("u.m3u8\n" if tag == "#EXT-X-STREAM-INF" else "")
@@ -2437,10 +2499,20 @@ def c11_texts(ctx):
 def c11_build(ctx):
     cases = []
     k = ctx.n(5, 50)
-    for i, (op, t) in enumerate(c11_texts(ctx)):
+    texts = c11_texts(ctx)
+    for i, (op, t) in enumerate(texts):
         for r in range(k):
             cases.append(mk(op, t, group="repeat-in-process", meta={"id": i}))
         cases.append(mk("par", t, op, group="threads", meta={"id": i}))
+    # the same text parsed again by the SAME builder object (`MediaPlaylistBuilder::parse` takes `&mut self`): once, twice, three times
+    med = [t for op, t in texts if op == "rt_media"]
+    step = max(1, len(med) // ctx.n(150, 1500))
+    reuse = med[::step] + NEAR_MEDIA + [G.gen_media(ctx.rng, features=ctx.features)[0] for _ in range(ctx.n(60, 600))] + \
+        ["#EXTM3U\n#EXT-X-TARGETDURATION:10\n#EXT-X-FOO:1\n#EXTINF:1,\na.ts\n#EXT-X-BAR\n#EXTINF:1,\nb.ts\n"]
+    for i, t in enumerate(reuse):
+        one = "parse " + C.hx(t)
+        for rep in (1, 2, 3):
+            cases.append(mk("build_media", "\n".join([one] * rep), group="builder-reuse", meta={"id": "reuse%d" % i, "reuse": True}))
     return cases
 
 
@@ -2474,7 +2546,9 @@ def c11_oracle(ctx, cases, impl, model):
         if len(outs) > 1:
             c, a = items[0]
             other = next(x for x in outs if x != a)
-            fails.append(dict(describe(c.line, a), what="parsing the same text %d times in one process gives %d different results" % (len(items), len(outs)), law="repeat", other=other[:2000]))
+            what = "parsing the same text again with the same builder gives a different result" if c.meta.get("reuse") else \
+                "parsing the same text %d times in one process gives %d different results" % (len(items), len(outs))
+            fails.append(dict(describe(c.line, a), what=what, law="repeat", other=other[:2000]))
     # fresh processes (fresh hash seeds)
     m = ctx.n(4, 64)
     distinct = []
@@ -2566,6 +2640,30 @@ def c17_build(ctx):
             cases.append(mk(op, t, *args, group="entry-points", meta={"ep": "near" + str(hash(t))}))
     for t in NEAR_MASTER:
         cases.append(mk("owned:master", t, group="owned:near"))
+    # playlists that did not come from a default parse: builder scripts (every setter with its default / zero / largest value, segments
+    # pushed or handed over, explicit numbers), and a builder that was configured before it parsed a text
+    hx = lambda t: t.encode().hex()
+    seg = "dur=1000000000 uri=" + hx("a")
+    DMAX = "18446744073709551615999999999"
+    text = "#EXTM3U\n#EXT-X-TARGETDURATION:10\n#EXT-X-FOO\n#EXTINF:1,\na.ts\n#EXTINF:1,\nb.ts\n#EXTINF:1,\nc.ts\n"
+    setters = {"td": ["10000000000", "0", DMAX], "ms": ["0", "5", str(U64 - 3)], "ds": ["0", "1", str(U64)], "pt": ["VOD", "EVENT"], "ifo": ["0", "1"], "ind": ["0", "1"],
+               "end": ["0", "1"], "ex": ["0", "1", "500000000", DMAX, "18446744073709551605999999999"], "unk": ["", hx("#EXT-X-BAR")], "start": ["3fc00000 0", "3fc00000 1", "80000000 0"]}
+    for k, vals in setters.items():
+        for v in vals:
+            call = (k + " " + v).strip()
+            pre = [] if k == "td" else ["td 10000000000"]
+            cases.append(mk("owned_build_media", "\n".join(pre + [call, "push " + seg, "push " + seg.replace(hx("a"), hx("b")), "push " + seg.replace(hx("a"), hx("c"))]), group="owned:built"))
+            cases.append(mk("owned_build_media", "\n".join([call, "parse " + hx(text)]), group="owned:preset-parse"))
+    for nseg in range(0, 10):          # every small number of segments (a container rebuilt element by element differs in capacity)
+        calls = ["td 10000000000"] + ["push dur=1000000000 uri=" + hx("s%d" % i) for i in range(nseg)]
+        cases.append(mk("owned_build_media", "\n".join(calls if nseg else calls + ["segs"]), group="owned:built"))
+        t = "#EXTM3U\n#EXT-X-TARGETDURATION:10\n" + "".join("#EXTINF:1,\ns%d.ts\n" % i for i in range(nseg))
+        cases.append(mk("owned:media", t, group="owned:near", meta={"id": "n%d" % nseg}))
+        cases.append(mk("cmp_entry", t, group="entry-points-eq"))
+    for t in NEAR_MEDIA:
+        cases.append(mk("cmp_entry", t, group="entry-points-eq"))
+    for _ in range(ctx.n(300, 6000)):
+        cases.append(mk("cmp_entry", G.gen_media(rng, features=ctx.features)[0], group="entry-points-eq"))
     return cases
 
 
@@ -2576,14 +2674,17 @@ def c17_oracle(ctx, cases, impl, model):
         r = C.Resp(a)
         if r.status == "panic":
             fails.append(dict(describe(c.line, a), what="panicked", law="no-panic")); continue
-        if c.op.startswith("owned:") and r.status == "ok":
+        if c.op == "cmp_entry" and r.status == "ok" and (r.get("E") != "1" or r.get("X") != "1"):
+            fails.append(dict(describe(c.line, a), what="the values the three entry points return for one text (or their clones / owned forms) do not compare equal: E:%s X:%s" % (r.get("E"), r.get("X")),
+                              law="entry-points-eq"))
+        if (c.op.startswith("owned:") or c.op == "owned_build_media") and r.status == "ok":
             o, cl = r.get("O"), r.get("C")
             if o != "111":
                 names = ["== fails", "observable content differs", "to_string() differs"]
                 bad = [n for n, b in zip(names, o or "000") if b != "1"]
-                fails.append(dict(describe(c.line, a), what="into_owned() of %s: %s" % (c.op[6:], ", ".join(bad)), law="into_owned"))
+                fails.append(dict(describe(c.line, a), what="into_owned() of %s: %s" % (c.op[6:] if c.op.startswith("owned:") else "a built playlist", ", ".join(bad)), law="into_owned"))
             if cl != "111":
-                fails.append(dict(describe(c.line, a), what="clone() of %s changes the value (%s)" % (c.op[6:], cl), law="clone"))
+                fails.append(dict(describe(c.line, a), what="clone() of %s changes the value (%s)" % (c.op[6:] if c.op.startswith("owned:") else "a built playlist", cl), law="clone"))
         if "ep" in c.meta:
             eps.setdefault(c.meta["ep"], []).append((c, a))
     for k, items in eps.items():
@@ -2724,7 +2825,10 @@ def c14_build(ctx):
         for order in (attrs, attrs[::-1]):
             cases.append(mk("tag:ExtXDateRange", "#EXT-X-DATERANGE:" + ",".join(order), group="DATERANGE-empty-values", meta={"exp": exp}))
     # keys
-    ivs = [None, "0x000102030405060708090a0b0c0d0e0f", "0X000102030405060708090A0B0C0D0E0F", "000102030405060708090a0b0c0d0e0f", "0x0001", "0x000102030405060708090a0b0c0d0e0g"]
+    ivs = [None, "0x000102030405060708090a0b0c0d0e0f", "0X000102030405060708090A0B0C0D0E0F", "000102030405060708090a0b0c0d0e0f", "0x0001", "0x000102030405060708090a0b0c0d0e0g",
+           # 32 characters behind the prefix that a number parser would swallow but that are not 32 hex digits
+           "0x+00102030405060708090a0b0c0d0e0f", "0x-00102030405060708090a0b0c0d0e0f", "0x 00102030405060708090a0b0c0d0e0f", "0x0_0102030405060708090a0b0c0d0e0f",
+           "0x0x0102030405060708090a0b0c0d0e0f", "0x00102030405060708090a0b0c0d0e0f ", "0x000102030405060708090a0b0c0d0e0f0", "0x00102030405060708090a0b0c0d0e0f"]
     vers = [None, '"1"', '"1/2/5"', '"1/2/3/4/5/6/7/8/9"', '"1/2/3/4/5/6/7/8/9/10"', '"256"', '"x"']
     hxs = lambda t: t.encode().hex()
     # blank = nothing but white space in the Unicode sense (what `str::trim` removes), not only the ASCII blanks
@@ -4044,6 +4148,8 @@ C03_KINDS = {      # two values of each kind of segment tag (key lines first: a 
     # keys one attribute apart where the attribute has a default: absent / written explicitly
     "key-identity": ('#EXT-X-KEY:METHOD=AES-128,URI="k"\n', '#EXT-X-KEY:METHOD=AES-128,URI="k",KEYFORMAT="identity"\n'),
     "key-versions": ('#EXT-X-KEY:METHOD=AES-128,URI="k",KEYFORMAT="f"\n', '#EXT-X-KEY:METHOD=AES-128,URI="k",KEYFORMAT="f",KEYFORMATVERSIONS="1/2"\n'),
+    "key-versions-zero": ('#EXT-X-KEY:METHOD=AES-128,URI="k",KEYFORMAT="f",KEYFORMATVERSIONS="2"\n', '#EXT-X-KEY:METHOD=AES-128,URI="k",KEYFORMAT="f",KEYFORMATVERSIONS="2/0"\n'),
+    "key-versions-order": ('#EXT-X-KEY:METHOD=AES-128,URI="k",KEYFORMAT="f",KEYFORMATVERSIONS="1/2"\n', '#EXT-X-KEY:METHOD=AES-128,URI="k",KEYFORMAT="f",KEYFORMATVERSIONS="2/1"\n'),
     "key-iv0": ('#EXT-X-KEY:METHOD=AES-128,URI="k"\n', '#EXT-X-KEY:METHOD=AES-128,URI="k",IV=%s00\n' % _IV),
     "key-method": ('#EXT-X-KEY:METHOD=AES-128,URI="k"\n', '#EXT-X-KEY:METHOD=SAMPLE-AES,URI="k"\n'),
     "map": ('#EXT-X-MAP:URI="i"\n', '#EXT-X-MAP:URI="j"\n'),
